@@ -10,20 +10,21 @@ namespace AsmjitVerif.Lemmas.X86Parse
 open Spec.X86
 
 /-- shape [reg, MEM] with a 64-bit-addressed, non-VSIB memory operand without segment / broadcast: all conditions of the monitor hold -/
-theorem vex_rm_mem_formOk (ctx : Spec.X86.Ctx) (rule : Rule) (p : Parsed) (mb : BitVec 8) (bytes : List (BitVec 8))
+theorem vex_rm_mem_formOk (ctx : Spec.X86.Ctx) (rule : Rule) (p : Parsed) (mb : BitVec 8) (bytes pfx : List (BitVec 8))
     (k0 : RegKind) (f0 f2 : FormOp) (i0 : Nat) (m : MemOp)
     (hm64 : ctx.mode64 = true) (hmode : (rule.modes &&& 2 != 0) = true) (hk0 : PlainKind k0)
     (R : VexRuleM rule 0) (hf0 : f0.role = .reg) (hf2 : f2.role = .rm)
-    (hwa : wantedAddrSize true m = 64) (hvs : vsibOf m = .none) (hseg : m.seg = 0) (hbc : m.bcst = 0)
+    (K : PfxCounts pfx m) (hvs : vsibOf m = .none) (hbc : m.bcst = 0)
     (hal : alignOps rule.oszEff rule.ops [.reg k0 i0, .mem m] =
            some [(f0, some (.reg k0 i0)), (f2, some (.mem m))])
-    (hparse : parse true rule bytes = .ok p) (P : VexParsedM rule p mb)
+    (hparse : parse true rule bytes = .ok p) (P : VexParsedM rule p mb pfx)
     (hreg : regNum p.R' p.R (bits mb 3 3) = i0)
     (hvv : regNum p.V' false p.vvvv = 0)
     (hcm : checkMem ctx rule p m = .ok ()) :
     formOk ctx rule [.reg k0 i0, .mem m] {} bytes = true := by
   obtain ⟨hvk, hpfx, hrex, hmodrm, hmod, hop, hmap, hpp, hw, hl, hl1, hev⟩ := P
   obtain ⟨hs, hpp8, hri, hmk, hmr, hmrm, himm, hrel, hmoff, ha67, hrev, hosz⟩ := R
+  obtain ⟨c66, cF3, cF2, cF0, c9B, cseg, c67, ccont⟩ := K
   have hleg : isLegacySpace rule = false := by rcases hs with h | h | h <;> simp [isLegacySpace, h]
   have hs4 : (rule.space == 4) = false := by rcases hs with h | h | h <;> simp [h]
   have hvk0 : (p.vexKind == 0) = false := by rcases hvk with h | h | h | h <;> simp [h]
@@ -31,14 +32,16 @@ theorem vex_rm_mem_formOk (ctx : Spec.X86.Ctx) (rule : Rule) (p : Parsed) (mb : 
   simp only [formOk, conds, hm64, hal, hparse, ↓reduceIte, hmode]
   simp only [allOk_cons, allOk_append, decorConds, headConds, prefixConds, modrmConds, operandConds, opConds, tailConds, hf0, hf2,
     regConds_plain _ _ _ _ _ hk0, allOk_nil, memOperandOf, implMemOf, usesVvvv, memDestOf, hcm, Spec.X86.ofExcept,
-    hasBcst, hleg, hri, hmodrm, hpfx, hrex, List.foldl, List.find?]
+    hasBcst, hleg, hri, hmodrm, hpfx, hrex, List.foldl, List.find?, c66, cF3, cF2, cF0, c9B, cseg, ccont]
   obtain ⟨hv0, hV⟩ := regNum_zero _ _ hvv
-  simp [hop, hmap, hpp, hreg, hv0, hV, hmod', hmr, hmrm, hs4, hvk0, hpp8, ha67, hbc, hseg, hwa, hvs, segPrefix, hm64, allOk]
+  simp [hop, hmap, hpp, hreg, hv0, hV, hmod', hmr, hmrm, hs4, hvk0, hpp8, ha67, hbc, hvs, hm64, allOk]
   have hvk0' : ¬ p.vexKind = 0 := by rcases hvk with h | h | h | h <;> omega
   and_intros
   all_goals first
     | exact hw
     | exact hvk0'
+    | exact c67
+    | (refine Or.inr ?_; simpa using ccont)
     | (refine Or.inl ?_; rcases hs with h | h | h <;> omega)
     | (rcases hmk with h | h <;> omega)
     | (rcases hl with h | h
@@ -56,21 +59,22 @@ theorem vex_rm_mem_formOk (ctx : Spec.X86.Ctx) (rule : Rule) (p : Parsed) (mb : 
     | rfl
 
 /-- shape [reg, vvvv, MEM, imm8] with a 64-bit-addressed, non-VSIB memory operand without segment / broadcast: all conditions of the monitor hold -/
-theorem vex_rvmi_mem_formOk (ctx : Spec.X86.Ctx) (rule : Rule) (p : Parsed) (mb : BitVec 8) (bytes : List (BitVec 8))
+theorem vex_rvmi_mem_formOk (ctx : Spec.X86.Ctx) (rule : Rule) (p : Parsed) (mb : BitVec 8) (bytes pfx : List (BitVec 8))
     (k0 k1 : RegKind) (f0 f1 f2 : FormOp) (i0 i1 : Nat) (m : MemOp)
     (hm64 : ctx.mode64 = true) (hmode : (rule.modes &&& 2 != 0) = true) (hk0 : PlainKind k0) (hk1 : PlainKind k1)
     (R : VexRuleM rule 1) (f3 : FormOp) (v : BitVec 64) (hf3 : f3.role = .imm) (hib : immBitsOf f3 = 8)
     (himmp : p.imm = [BitVec.ofNat 8 v.toNat]) (hf0 : f0.role = .reg) (hf1 : f1.role = .vvvv) (hf2 : f2.role = .rm)
-    (hwa : wantedAddrSize true m = 64) (hvs : vsibOf m = .none) (hseg : m.seg = 0) (hbc : m.bcst = 0)
+    (K : PfxCounts pfx m) (hvs : vsibOf m = .none) (hbc : m.bcst = 0)
     (hal : alignOps rule.oszEff rule.ops [.reg k0 i0, .reg k1 i1, .mem m, .imm v] =
            some [(f0, some (.reg k0 i0)), (f1, some (.reg k1 i1)), (f2, some (.mem m)), (f3, some (.imm v))])
-    (hparse : parse true rule bytes = .ok p) (P : VexParsedM rule p mb)
+    (hparse : parse true rule bytes = .ok p) (P : VexParsedM rule p mb pfx)
     (hreg : regNum p.R' p.R (bits mb 3 3) = i0)
     (hvv : regNum p.V' false p.vvvv = i1)
     (hcm : checkMem ctx rule p m = .ok ()) :
     formOk ctx rule [.reg k0 i0, .reg k1 i1, .mem m, .imm v] {} bytes = true := by
   obtain ⟨hvk, hpfx, hrex, hmodrm, hmod, hop, hmap, hpp, hw, hl, hl1, hev⟩ := P
   obtain ⟨hs, hpp8, hri, hmk, hmr, hmrm, himm, hrel, hmoff, ha67, hrev, hosz⟩ := R
+  obtain ⟨c66, cF3, cF2, cF0, c9B, cseg, c67, ccont⟩ := K
   have hleg : isLegacySpace rule = false := by rcases hs with h | h | h <;> simp [isLegacySpace, h]
   have hs4 : (rule.space == 4) = false := by rcases hs with h | h | h <;> simp [h]
   have hvk0 : (p.vexKind == 0) = false := by rcases hvk with h | h | h | h <;> simp [h]
@@ -78,13 +82,15 @@ theorem vex_rvmi_mem_formOk (ctx : Spec.X86.Ctx) (rule : Rule) (p : Parsed) (mb 
   simp only [formOk, conds, hm64, hal, hparse, ↓reduceIte, hmode]
   simp only [allOk_cons, allOk_append, decorConds, headConds, prefixConds, modrmConds, operandConds, opConds, tailConds, hf3, hib, himmp, immBytesOf, oszEff_zero rule hosz hs, hrev, hf0, hf1, hf2,
     regConds_plain _ _ _ _ _ hk0, regConds_plain _ _ _ _ _ hk1, allOk_nil, memOperandOf, implMemOf, usesVvvv, memDestOf, hcm, Spec.X86.ofExcept,
-    hasBcst, hleg, hri, hmodrm, hpfx, hrex, List.foldl, List.find?]
-  simp [hop, hmap, hpp, hreg, hvv, hmod', hmr, hmrm, hs4, hvk0, hpp8, ha67, hbc, hseg, hwa, hvs, segPrefix, hm64, allOk]
+    hasBcst, hleg, hri, hmodrm, hpfx, hrex, List.foldl, List.find?, c66, cF3, cF2, cF0, c9B, cseg, ccont]
+  simp [hop, hmap, hpp, hreg, hvv, hmod', hmr, hmrm, hs4, hvk0, hpp8, ha67, hbc, hvs, hm64, allOk]
   have hvk0' : ¬ p.vexKind = 0 := by rcases hvk with h | h | h | h <;> omega
   and_intros
   all_goals first
     | exact hw
     | exact hvk0'
+    | exact c67
+    | (refine Or.inr ?_; simpa using ccont)
     | (refine Or.inl ?_; rcases hs with h | h | h <;> omega)
     | (rcases hmk with h | h <;> omega)
     | (rcases hl with h | h
@@ -104,21 +110,22 @@ theorem vex_rvmi_mem_formOk (ctx : Spec.X86.Ctx) (rule : Rule) (p : Parsed) (mb 
     | simp [leBytes, allOk]
 
 /-- shape [reg, MEM, imm8] with a 64-bit-addressed, non-VSIB memory operand without segment / broadcast: all conditions of the monitor hold -/
-theorem vex_rmi_mem_formOk (ctx : Spec.X86.Ctx) (rule : Rule) (p : Parsed) (mb : BitVec 8) (bytes : List (BitVec 8))
+theorem vex_rmi_mem_formOk (ctx : Spec.X86.Ctx) (rule : Rule) (p : Parsed) (mb : BitVec 8) (bytes pfx : List (BitVec 8))
     (k0 : RegKind) (f0 f2 : FormOp) (i0 : Nat) (m : MemOp)
     (hm64 : ctx.mode64 = true) (hmode : (rule.modes &&& 2 != 0) = true) (hk0 : PlainKind k0)
     (R : VexRuleM rule 1) (f3 : FormOp) (v : BitVec 64) (hf3 : f3.role = .imm) (hib : immBitsOf f3 = 8)
     (himmp : p.imm = [BitVec.ofNat 8 v.toNat]) (hf0 : f0.role = .reg) (hf2 : f2.role = .rm)
-    (hwa : wantedAddrSize true m = 64) (hvs : vsibOf m = .none) (hseg : m.seg = 0) (hbc : m.bcst = 0)
+    (K : PfxCounts pfx m) (hvs : vsibOf m = .none) (hbc : m.bcst = 0)
     (hal : alignOps rule.oszEff rule.ops [.reg k0 i0, .mem m, .imm v] =
            some [(f0, some (.reg k0 i0)), (f2, some (.mem m)), (f3, some (.imm v))])
-    (hparse : parse true rule bytes = .ok p) (P : VexParsedM rule p mb)
+    (hparse : parse true rule bytes = .ok p) (P : VexParsedM rule p mb pfx)
     (hreg : regNum p.R' p.R (bits mb 3 3) = i0)
     (hvv : regNum p.V' false p.vvvv = 0)
     (hcm : checkMem ctx rule p m = .ok ()) :
     formOk ctx rule [.reg k0 i0, .mem m, .imm v] {} bytes = true := by
   obtain ⟨hvk, hpfx, hrex, hmodrm, hmod, hop, hmap, hpp, hw, hl, hl1, hev⟩ := P
   obtain ⟨hs, hpp8, hri, hmk, hmr, hmrm, himm, hrel, hmoff, ha67, hrev, hosz⟩ := R
+  obtain ⟨c66, cF3, cF2, cF0, c9B, cseg, c67, ccont⟩ := K
   have hleg : isLegacySpace rule = false := by rcases hs with h | h | h <;> simp [isLegacySpace, h]
   have hs4 : (rule.space == 4) = false := by rcases hs with h | h | h <;> simp [h]
   have hvk0 : (p.vexKind == 0) = false := by rcases hvk with h | h | h | h <;> simp [h]
@@ -126,14 +133,16 @@ theorem vex_rmi_mem_formOk (ctx : Spec.X86.Ctx) (rule : Rule) (p : Parsed) (mb :
   simp only [formOk, conds, hm64, hal, hparse, ↓reduceIte, hmode]
   simp only [allOk_cons, allOk_append, decorConds, headConds, prefixConds, modrmConds, operandConds, opConds, tailConds, hf3, hib, himmp, immBytesOf, oszEff_zero rule hosz hs, hrev, hf0, hf2,
     regConds_plain _ _ _ _ _ hk0, allOk_nil, memOperandOf, implMemOf, usesVvvv, memDestOf, hcm, Spec.X86.ofExcept,
-    hasBcst, hleg, hri, hmodrm, hpfx, hrex, List.foldl, List.find?]
+    hasBcst, hleg, hri, hmodrm, hpfx, hrex, List.foldl, List.find?, c66, cF3, cF2, cF0, c9B, cseg, ccont]
   obtain ⟨hv0, hV⟩ := regNum_zero _ _ hvv
-  simp [hop, hmap, hpp, hreg, hv0, hV, hmod', hmr, hmrm, hs4, hvk0, hpp8, ha67, hbc, hseg, hwa, hvs, segPrefix, hm64, allOk]
+  simp [hop, hmap, hpp, hreg, hv0, hV, hmod', hmr, hmrm, hs4, hvk0, hpp8, ha67, hbc, hvs, hm64, allOk]
   have hvk0' : ¬ p.vexKind = 0 := by rcases hvk with h | h | h | h <;> omega
   and_intros
   all_goals first
     | exact hw
     | exact hvk0'
+    | exact c67
+    | (refine Or.inr ?_; simpa using ccont)
     | (refine Or.inl ?_; rcases hs with h | h | h <;> omega)
     | (rcases hmk with h | h <;> omega)
     | (rcases hl with h | h
